@@ -193,7 +193,10 @@ def run_entry(entry, n, seed, acc, tier):
         absent = [x for x in lids if x not in present]
         if absent:
             chosen.append(absent[ch.integer(0, len(absent) - 1)])
-        return {'text': doc.text(), 'loop_ids': chosen,
+        eol = ch.choice(['\n', '\n', '', '\r\n'])
+        if ch.chance(.3):
+            docgen.pad_to_boundary(doc, eol=eol, delta=ch.choice([-1, 0, 0, 1]), safe=True)    # a terminator on a read-buffer edge
+        return {'text': doc.text(eol=eol), 'loop_ids': chosen,
                 'paths': [[l.id for l, k in s.chain] for s in doc.segs], 'insts': [[k for l, k in s.chain] for s in doc.segs],
                 'meta': {'file': entry['file'], 'value_faults': vf}}
 
@@ -251,7 +254,10 @@ def run_mixed(n, seed, acc):
         shared = [x for x in present if x not in ('ISA_LOOP', 'GS_LOOP', 'ST_LOOP') and nparts(x) > 1]
         rest = [x for x in present if x not in shared]
         chosen = [None] + shared[:4] + [rest[ch.integer(0, len(rest) - 1)] for _ in range(min(2, len(rest)))]
-        return {'text': doc.text(), 'loop_ids': chosen,
+        eol = ch.choice(['\n', '\n', '', '\r\n'])
+        if ch.chance(.3):
+            docgen.pad_to_boundary(doc, eol=eol, delta=ch.choice([-1, 0, 0, 1]), safe=True)    # a terminator on a read-buffer edge
+        return {'text': doc.text(eol=eol), 'loop_ids': chosen,
                 'paths': [[l.id for l, k in s.chain] for s in doc.segs], 'insts': [[k for l, k in s.chain] for s in doc.segs],
                 'meta': {'file': 'mixed', 'parts': [e['file'] for e in doc.parts], 'shared_loop_ids': len(shared)}}
 
